@@ -19,11 +19,11 @@ def run(ctx):
     A = ctx.A
     ctx.rule("C03-R1", "framing agreement: writer [varint qid, payload], size = header(qid)+len, reader [varint] + rest; driver offsets")
     f = A.fn("wtransport_proto::datagram::Datagram::write")
-    BW = r"&BufferWriter::new\(&\*buffer\)"
+    BW = r"BufferWriter::new\(buffer\)"
     rows = [
-        {"name": "too small->untouched", "atoms": [r"^<impl \[T\]>::len\(&\*buffer\) < Datagram::write_size\(&\*self\)$"], "not_events": [r"put_"], "leaf": r"^return Result::Err\(EndOfBuffer\)$"},
-        {"name": "fits->[varint qid, bytes payload]", "atoms": [r"^<impl \[T\]>::len\(&\*buffer\) >= Datagram::write_size\(&\*self\)$"],
-         "events": [r"^<BufferWriter as BytesWriter>::put_varint\(%s,QStreamId::into_varint\(\*self\.qstream_id\)\)$" % BW, r"^<BufferWriter as BytesWriter>::put_bytes\(%s,&\*\*self\.payload\)$" % BW],
+        {"name": "too small->untouched", "atoms": [r"^<impl \[T\]>::len\(buffer\) < Datagram::write_size\(self\)$"], "not_events": [r"put_"], "leaf": r"^return Result::Err\(EndOfBuffer\)$"},
+        {"name": "fits->[varint qid, bytes payload]", "atoms": [r"^<impl \[T\]>::len\(buffer\) >= Datagram::write_size\(self\)$"],
+         "events": [r"^<BufferWriter as BytesWriter>::put_varint\(%s,QStreamId::into_varint\(self\.qstream_id\)\)$" % BW, r"^<BufferWriter as BytesWriter>::put_bytes\(%s,self\.payload\)$" % BW],
          "leaf": r"^return Result::Ok\(BufferWriter::offset\(%s\)\)$" % BW},
     ]
     ps = walk(f)
@@ -33,52 +33,52 @@ def run(ctx):
     ctx.check("C03-R1", "write order", seq == ["<BufferWriter as BytesWriter>::put_varint", "<BufferWriter as BytesWriter>::put_bytes"], "Datagram::write does not emit exactly [varint, bytes]: %s" % seq, where(f))
     f = A.fn("wtransport_proto::datagram::Datagram::write_size")
     ls = [path_sig(p)[1] for p in nonpanic(walk(f))]
-    ctx.check("C03-R1", "write_size", ls == ["return AddWithOverflow(Datagram::header_size(*self.qstream_id),<impl [T]>::len(&**self.payload)).0"], "write_size != header_size(qid) + payload.len(): %s" % ls, where(f))
+    ctx.check("C03-R1", "write_size", ls == ["return AddWithOverflow(Datagram::header_size(self.qstream_id),<impl [T]>::len(self.payload)).0"], "write_size != header_size(qid) + payload.len(): %s" % ls, where(f))
     f = A.fn("wtransport_proto::datagram::Datagram::header_size")
     ls = [path_sig(p)[1] for p in nonpanic(walk(f))]
     ctx.check("C03-R1", "header_size", ls == ["return VarInt::size(QStreamId::into_varint(qstream_id))"], "header_size != varint size of the quarter stream id: %s" % ls, where(f))
     f = A.fn("wtransport_proto::datagram::Datagram::read")
-    BR = r"&BufferReader::new\(&\*quic_datagram\)"
+    BR = r"BufferReader::new\(quic_datagram\)"
     GV = r"<BufferReader as BytesReader>::get_varint\(%s\)" % BR
     rows = [
-        {"name": "empty->error", "atoms": [r"^%s is None$" % GV], "leaf": r"^return Err\(from\(ErrorCode::Datagram\)\)$"},
-        {"name": "qid too large->error", "atoms": [r"^QStreamId::try_from_varint\(some\(%s\)\) fails$" % GV], "leaf": r"^return Err\(from\(apply\(closure:"},
-        {"name": "ok->(qid, rest of the buffer)", "atoms": [r"^QStreamId::try_from_varint\(some\(%s\)\) ok$" % GV],
-         "leaf": r"^return Result::Ok\(datagram::Datagram\(ok\(QStreamId::try_from_varint\(some\(%s\)\)\),&\*BufferReader::buffer_remaining\(%s\)\)\)$" % (GV, BR)},
+        {"name": "empty->error", "atoms": [r"^%s fails$" % GV], "leaf": r"^return Result::Err\(ErrorCode::Datagram\)$"},
+        {"name": "qid too large->error", "atoms": [r"^QStreamId::try_from_varint\(ok\(%s\)\) fails$" % GV], "leaf": r"^return Result::Err\(ErrorCode::Datagram\)$"},
+        {"name": "ok->(qid, rest of the buffer)", "atoms": [r"^QStreamId::try_from_varint\(ok\(%s\)\) ok$" % GV],
+         "leaf": r"^return Result::Ok\(datagram::Datagram\(ok\(QStreamId::try_from_varint\(ok\(%s\)\)\),BufferReader::buffer_remaining\(%s\)\)\)$" % (GV, BR)},
     ]
     match_table(ctx, "C03-R1", f, walk(f), rows, "proto Datagram::read")
     f = A.fn("wtransport_proto::bytes::BufferReader::buffer_remaining")
     ls = [path_sig(p)[1] for p in nonpanic(walk(f))]
-    ctx.check("C03-R1", "buffer_remaining is a suffix of the buffer", ls == ["return &*<impl Index<I> for [T]>::index(&*BufferReader::buffer(&*self),RangeFrom(BufferReader::offset(&*self)))"],
+    ctx.check("C03-R1", "buffer_remaining is a suffix of the buffer", ls == ["return <impl Index<I> for [T]>::index(BufferReader::buffer(self),RangeFrom(BufferReader::offset(self)))"],
               "BufferReader::buffer_remaining is not `&buffer()[offset()..]`: %s" % ls, where(f))
     # driver side
     f = A.fn("wtransport::datagram::Datagram::read")
-    H3 = r"ok\(Datagram::read\(&quic_dgram\)\)"
+    H3 = r"ok\(Datagram::read\(quic_dgram\)\)"
     rows = [
-        {"name": "parse error passthrough", "atoms": [r"^Datagram::read\(&quic_dgram\) fails$"], "leaf": r"^return Err\(from\(err\(Datagram::read\(&quic_dgram\)\)\)\)$"},
-        {"name": "ok->(same bytes, len(quic)-len(payload), qid.into_session_id())", "atoms": [r"^Datagram::read\(&quic_dgram\) ok$"],
-         "leaf": r"^return Result::Ok\(datagram::Datagram\(quic_dgram,SubWithOverflow\(Bytes::len\(&quic_dgram\),<impl \[T\]>::len\(&\*Datagram::payload\(&%s\)\)\)\.0,QStreamId::into_session_id\(Datagram::qstream_id\(&%s\)\)\)\)$" % (H3, H3)},
+        {"name": "parse error passthrough", "atoms": [r"^Datagram::read\(quic_dgram\) fails$"], "leaf": r"^return Result::Err\(err\(Datagram::read\(quic_dgram\)\)\)$"},
+        {"name": "ok->(same bytes, len(quic)-len(payload), qid.into_session_id())", "atoms": [r"^Datagram::read\(quic_dgram\) ok$"],
+         "leaf": r"^return Result::Ok\(datagram::Datagram\(quic_dgram,SubWithOverflow\(Bytes::len\(quic_dgram\),<impl \[T\]>::len\(Datagram::payload\(%s\)\)\)\.0,QStreamId::into_session_id\(Datagram::qstream_id\(%s\)\)\)\)$" % (H3, H3)},
     ]
     match_table(ctx, "C03-R1", f, walk(f), rows, "driver Datagram::read")
     f = A.fn("wtransport::datagram::Datagram::write")
-    H = r"Datagram::new\(QStreamId::from_session_id\(session_id\),&\*payload\)"
-    BUF = r"Vec::into_boxed_slice\(from_elem\(0,Datagram::write_size\(&%s\)\)\)" % H
+    H = r"Datagram::new\(QStreamId::from_session_id\(session_id\),payload\)"
+    BUF = r"Vec::into_boxed_slice\(from_elem\(0,Datagram::write_size\(%s\)\)\)" % H
     QD = r"<Bytes as From<Box<\[u8\]>>>::from\(%s\)" % BUF
     ps = nonpanic(walk(f))
     ls = [path_sig(p)[1] for p in ps]
-    want = r"^return datagram::Datagram\(%s,SubWithOverflow\(Bytes::len\(&%s\),<impl \[T\]>::len\(&\*payload\)\)\.0,session_id\)$" % (QD, QD)
+    want = r"^return datagram::Datagram\(%s,SubWithOverflow\(Bytes::len\(%s\),<impl \[T\]>::len\(payload\)\)\.0,session_id\)$" % (QD, QD)
     ctx.check("C03-R1", "driver Datagram::write", len(ls) == 1 and re.match(want, ls[0]) is not None, "driver Datagram::write changed shape: %s" % ls, where(f))
     evs = [e for p in ps for e in event_strs(p)]
-    ctx.check("C03-R1", "driver Datagram::write serialises into the exact-size buffer", any(re.match(r"^Datagram::write\(&%s,&\*\(%s as " % (H, BUF), e) or re.match(r"^Datagram::write\(&%s,&\*+%s" % (H, BUF), e) or e.startswith("Datagram::write(&Datagram::new(QStreamId::from_session_id(session_id),&*payload),") for e in evs),
+    ctx.check("C03-R1", "driver Datagram::write serialises into the exact-size buffer", any(re.match(r"^Datagram::write\(%s,\(%s as " % (H, BUF), e) or re.match(r"^Datagram::write\(%s,%s" % (H, BUF), e) or e.startswith("Datagram::write(Datagram::new(QStreamId::from_session_id(session_id),payload),") for e in evs),
               "driver Datagram::write does not call proto Datagram::write into the buffer of write_size bytes", where(f))
-    for nm, fld in (("payload", r"^return Bytes::slice\(&\*self\.quic_dgram,RangeFrom\(\*self\.payload_offset\)\)$"),
-                    ("session_id", r"^return \*self\.session_id$"), ("into_quic_bytes", r"^return self\.quic_dgram$")):
+    for nm, fld in (("payload", r"^return Bytes::slice\(self\.quic_dgram,RangeFrom\(self\.payload_offset\)\)$"),
+                    ("session_id", r"^return self\.session_id$"), ("into_quic_bytes", r"^return self\.quic_dgram$")):
         f = A.fn("wtransport::datagram::Datagram::%s" % nm)
         ls = [path_sig(p)[1] for p in nonpanic(walk(f))]
         ctx.check("C03-R1", "driver Datagram::%s" % nm, len(ls) == 1 and re.match(fld, ls[0]) is not None, "Datagram::%s changed: %s" % (nm, ls), where(f))
     f = A.fn("<wtransport::datagram::Datagram as std::ops::Deref>::deref")
     ls = [path_sig(p)[1] for p in nonpanic(walk(f))]
-    ctx.check("C03-R1", "Deref slices from payload_offset", ls == ["return &*<impl Index<I> for [T]>::index(&*self.quic_dgram,RangeFrom(*self.payload_offset))"], "Deref for Datagram changed: %s" % ls, where(f))
+    ctx.check("C03-R1", "Deref slices from payload_offset", ls == ["return <impl Index<I> for [T]>::index(self.quic_dgram,RangeFrom(self.payload_offset))"], "Deref for Datagram changed: %s" % ls, where(f))
 
     ctx.rule("C03-R2", "quarter stream id conversion: write uses from_session_id (>>2), read uses into_session_id (<<2), header size from the quarter id")
     f = A.fn_opt("wtransport::datagram::Datagram::header_size")
@@ -93,7 +93,7 @@ def run(ctx):
     STOP = re.compile(r"^wtransport_proto::(varint::VarInt|ids::(QStreamId|SessionId|StreamId))::|^quinn|^<wtransport_proto::bytes::BufferWriter")
     HDR = "VarInt::size(QStreamId::into_varint(QStreamId::from_session_id(%s)))"
     f = A.fn("wtransport::connection::Connection::max_datagram_size")
-    QM = "Connection::max_datagram_size(&*self.quic_connection)"
+    QM = "Connection::max_datagram_size(self.quic_connection)"
     forms = []
     for p in nonpanic(walk(f, inline=STOP)):
         applied = False
@@ -107,8 +107,8 @@ def run(ctx):
                     forms.append((e[1].split("::")[-1], path_sig(q)[1]))
         if not applied:
             forms.append(("direct", path_sig(p)[1]))
-    want = [("and_then", "return <impl usize>::checked_sub(some(%s),%s)" % (QM, HDR % "*self.session_id")),
-            ("map", "return <impl usize>::saturating_sub(some(%s),%s)" % (QM, HDR % "*self.session_id"))]
+    want = [("and_then", "return <impl usize>::checked_sub(ok(%s),%s)" % (QM, HDR % "self.session_id")),
+            ("map", "return <impl usize>::saturating_sub(ok(%s),%s)" % (QM, HDR % "self.session_id"))]
     ctx.check("C03-R3", "max_datagram_size == quinn's max - size of the header that is written (varint of the quarter stream id)",
               len(forms) == 1 and forms[0] in want,
               "Connection::max_datagram_size is not `quinn_max.checked_sub(size(varint(quarter id of self.session_id)))`; normal form: %s" % forms, where(f),
@@ -119,15 +119,15 @@ def run(ctx):
     QID = "QStreamId::into_varint(QStreamId::from_session_id(session_id))"
     alloc = sorted({e for e in evs if e.startswith("from_elem(")})
     ctx.check("C03-R3", "bytes allocated for a datagram == header size + payload length",
-              alloc == ["from_elem(0,AddWithOverflow(%s,<impl [T]>::len(&*payload)).0)" % (HDR % "session_id")],
+              alloc == ["from_elem(0,AddWithOverflow(%s,<impl [T]>::len(payload)).0)" % (HDR % "session_id")],
               "driver Datagram::write allocates %s, expected header_size(quarter id) + payload.len()" % alloc, where(f), key="datagram buffer size normal form")
     puts = sorted({e for e in evs if e.startswith("<BufferWriter as BytesWriter>::put_varint(")})
     ctx.check("C03-R3", "the header written is the varint of the quarter stream id", len(puts) == 1 and puts[0].endswith("," + QID + ")"),
               "driver Datagram::write writes %s, expected put_varint(.., %s)" % (puts, QID), where(f), key="datagram header normal form")
     f = A.fn("wtransport::driver::Driver::send_datagram")
-    SD = r"Connection::send_datagram\(&\*self\.quic_connection,Datagram::into_quic_bytes\(Datagram::write\(session_id,&\*payload\)\)\)"
+    SD = r"Connection::send_datagram\(self\.quic_connection,Datagram::into_quic_bytes\(Datagram::write\(session_id,payload\)\)\)"
     rows = [
-        {"name": "Ok", "atoms": [r"^%s is Ok$" % SD], "leaf": r"^return Result::Ok\(\(\)\)$"},
+        {"name": "Ok", "atoms": [r"^%s ok$" % SD], "leaf": r"^return Result::Ok\(\(\)\)$"},
         {"name": "TooLarge->TooLarge", "atoms": [r" is TooLarge$"], "leaf": r"^return Result::Err\(SendDatagramError::TooLarge\)$"},
         {"name": "UnsupportedByPeer->UnsupportedByPeer", "atoms": [r" is UnsupportedByPeer$"], "leaf": r"^return Result::Err\(SendDatagramError::UnsupportedByPeer\)$"},
         {"name": "ConnectionLost->NotConnected", "atoms": [r" is ConnectionLost$"], "leaf": r"^return Result::Err\(SendDatagramError::NotConnected\)$"},
@@ -136,11 +136,11 @@ def run(ctx):
     match_table(ctx, "C03-R3", f, ps, rows, "Driver::send_datagram")
     pan = [path_sig(p)[0][-1] for p in ps if p.leaf[0] == "panic"]
     ctx.check("C03-R3", "send_datagram panic arms", all(a.endswith(" is Disabled") for a in pan), "Driver::send_datagram panics on an arm other than `Disabled`: %s" % pan, where(f))
-    ctx.assume("O1: quinn::SendDatagramError::Disabled is mapped to unreachable!(): reachable only when the *local* datagram_receive_buffer_size is None "
+    ctx.assume("O1: quinn::SendDatagramError::Disabled is mapped to unreachable!(): reachable only when the *local* datagram_receive_buffer_size fails "
                "(custom transport config) — a local-configuration panic outside C03's quantifier over peer limits")
     f = A.fn("wtransport::connection::Connection::send_datagram")
     ls = [path_sig(p)[1] for p in nonpanic(walk(f))]
-    ctx.check("C03-R3", "Connection::send_datagram delegates", len(ls) == 1 and re.match(r"^return Driver::send_datagram\(.*self\.driver.*,\*self\.session_id,.*payload", ls[0]) is not None,
+    ctx.check("C03-R3", "Connection::send_datagram delegates", len(ls) == 1 and re.match(r"^return Driver::send_datagram\(.*self\.driver.*,self\.session_id,.*payload", ls[0]) is not None,
               "Connection::send_datagram does not pass (self.session_id, payload) to the driver unchanged: %s" % ls, where(f))
 
     ctx.rule("C03-R4", "arithmetic safety: every subtraction on the datagram size path is discharged (guard or structural lemma)")
@@ -157,11 +157,11 @@ def run(ctx):
             if how is None and lemma == "suffix" and o.kind == "Overflow(Sub)":
                 # len(quic) - len(h3.payload()): payload is `buffer_remaining()` of a reader over the same bytes (checked in C03-R1)
                 a, b = canon(o.ops[0]), canon(o.ops[1])
-                if a == "Bytes::len(&quic_dgram)" and b == "<impl [T]>::len(&*Datagram::payload(&ok(Datagram::read(&quic_dgram))))":
+                if a == "Bytes::len(quic_dgram)" and b == "<impl [T]>::len(Datagram::payload(ok(Datagram::read(quic_dgram))))":
                     how = "lemma suffix: payload == buffer_remaining(reader over quic_dgram) (rows of proto Datagram::read and buffer_remaining checked in C03-R1)"
             if how is None and lemma == "prefix-sum" and o.kind == "Overflow(Sub)":
                 a, b = canon(o.ops[0]), canon(o.ops[1])
-                if "Datagram::write_size(" in a and b == "<impl [T]>::len(&*payload)":
+                if "Datagram::write_size(" in a and b == "<impl [T]>::len(payload)":
                     how = "lemma prefix-sum: len(quic) == write_size == header_size + len(payload) (write_size checked in C03-R1)"
             if how is None and lemma == "sum" and o.kind == "Overflow(Add)":
                 how = "lemma: header_size <= 8 and payload.len() <= isize::MAX (slice length) so the sum cannot overflow usize"
@@ -175,14 +175,14 @@ def run(ctx):
     shared.driver_session_filters(ctx, "C03-R5", which=("receive_datagram",))
     f = A.find1(r"^wtransport::connection::Connection::receive_datagram::\{closure#0\}$")
     ls = [path_sig(p)[1] for p in nonpanic(walk(f))]
-    ctx.check("C03-R5", "Connection::receive_datagram passes its session id", any("Driver::receive_datagram(" in e and "*self.session_id" in e for p in nonpanic(walk(f)) for e in event_strs(p)),
+    ctx.check("C03-R5", "Connection::receive_datagram passes its session id", any("Driver::receive_datagram(" in e and "self.session_id" in e for p in nonpanic(walk(f)) for e in event_strs(p)),
               "Connection::receive_datagram does not filter by self.session_id", where(f))
 
     ctx.rule("C03-R6", "no mutation path: Datagram's fields are private and no method hands out &mut to them")
     adt = A.adt("wtransport::datagram::Datagram")
     for fl in adt["variants"][0]["fields"]:
         ctx.check("C03-R6", "field %s private" % fl["name"], fl["vis"] != "pub", "Datagram.%s is public" % fl["name"], adt["at"]["sp"])
-    muts = [fn.path for fn in A.fn_list if fn.path.startswith("wtransport::datagram::Datagram::") and "&mut " in fn.raw.get("sig", "").split("->")[-1]]
+    muts = [fn.path for fn in A.fn_list if fn.path.startswith("wtransport::datagram::Datagram::") and "mut " in fn.raw.get("sig", "").split("->")[-1]]
     derefmut = [i for i in A.impls if i.get("trait", "").endswith("DerefMut") and i["self"] == "wtransport::datagram::Datagram"]
     ctx.check("C03-R6", "no &mut accessor", not muts and not derefmut, "Datagram exposes mutable access: %s %s" % (muts, derefmut), adt["at"]["sp"])
     witness.run(ctx, "C03-R6", {"C03"})
